@@ -333,7 +333,10 @@ func runC14(tier string) int {
 	// single-endpoint classes: a type must be declared even when no other method mentions it
 	for _, ce := range eps {
 		ct := ce.ep.Contract
-		if (len(ce.qkind) == 1 && ce.qkind[0] == "named-int" && ce.ret == "none" && ce.input == "none" && ce.ep.Method == "GET") ||
+		bare := ce.input == "none" && ce.ret == "none" && ce.ep.Method == "GET"
+		if (len(ce.qkind) == 1 && bare) || // one query parameter of each kind, nothing else
+			(len(ce.qkind) == 0 && ce.input == "none" && ce.ret == "json" && ce.ep.Method == "GET") ||
+			(len(ce.qkind) == 0 && ce.input == "json" && ce.ret == "none" && ce.ep.Method == "POST") ||
 			(ce.input == "form" && ct.InputForm.JSON.Name != "" && ct.InputForm.File == "" && len(ct.InputForm.ValueNames) == 0 && len(ce.qkind) == 0 && ce.ret == "none" && ce.ep.Method == "POST") {
 			chunks = append(chunks, chunk{[]c14Endpoint{ce}, "single-" + ct.Name})
 		}
